@@ -194,7 +194,7 @@ TxSet(e) ==
      /\ open' = IF open.id = "-" THEN NextOpen(o, e.tmo < 5000) ELSE NextOpen(o, open.short)
      /\ ever' = IF applied THEN EverAfter(ever, intended, R, NewStore(intended, R), o.d) \cup LeavesOf(o.I)
                ELSE ever \cup LeavesOf(o.I)
-     /\ txn' = IF applied THEN [valid |-> TRUE, id |-> e.id, req |-> R, snap |-> SnapOf(intended, R), dev |-> device, I |-> intended]
+     /\ txn' = IF applied THEN [valid |-> TRUE, id |-> e.id, req |-> R, snap |-> SnapOf(intended, R), dev |-> device, I |-> intended, repl |-> FALSE, m |-> mirror]
                ELSE txn
      /\ lastSet' = IF open.id = "-" /\ e.failat = 0 /\ ~e.devfail /\ e.ret \in {"ok", "invalid"}
                    THEN [valid |-> TRUE, ret |-> e.ret, cfg |-> ResultOf(NewStore(intended, R), device, ever, Orphaned(intended, R))]
@@ -209,6 +209,46 @@ TxSet(e) ==
                      upd |-> Pairs(e.resp.upd), delraw |-> SeqRange(e.resp.delraw)]
                ELSE NoDry
 
+\* ---- TransactionSet with a replace intent (and no other intents) ---------------------------
+\* The content of the replace intent becomes the whole configuration of the device; the intended store is not
+\* touched.  Like every transaction it is refused while another one is open, changes nothing when it is invalid or a
+\* dry run - and an invalid one is never answered with success (C03) - and is undone by cancel / expiry (C05).
+ReplCfg(e) == PairsToFun(Pairs(e.replace.upd))
+ReplaceClauses(e, o) ==
+  LET cfg == ReplCfg(e)
+      valid == ValidCfg(cfg, dis)
+  IN
+  IF open.id # "-" THEN
+     {<<"C06", "SetRefusedWhileOpen", e.ret = "locked">>,
+      <<"C06", "RefusedSetNoEffect", NoEffect(e, o) /\ o.open = OpenProj>>}
+  ELSE IF ~valid THEN
+     {<<"C03", "ReplaceInvalidSurfaced", e.ret \in {"error", "invalid"}>>,
+      <<"C03", "ReplaceInvalidNoEffect", NoEffect(e, o)>>,
+      <<"C06", "NotWedgedAfterError", o.open.id = "-">>}
+  ELSE IF e.dry THEN
+     {<<"C03", "ReplaceDryOk", e.ret = "ok">>,
+      <<"C03", "ReplaceDryNoEffect", NoEffect(e, o)>>,
+      <<"C06", "DryRunLeavesNothingOpen", o.open.id = "-">>}
+  ELSE
+     {<<"C03", "ReplaceValidAccepted", e.ret = "ok">>,
+      <<"C01", "ReplaceApplied", o.d = cfg>>,
+      <<"C02", "ReplaceKeepsIntents", o.I = intended>>,
+      <<"C06", "ArmedAfterSet", o.open = [id |-> e.id, armed |-> TRUE]>>,
+      <<"C01", "ReplaceRunningTracksDevice", o.m = o.d>>}
+TxReplace(e) ==
+  LET o == Obs(e)
+      applied == e.ret = "ok" /\ ~e.dry /\ open.id = "-"
+  IN /\ bad' = bad \cup Failed(ReplaceClauses(e, o), l)
+     /\ nt' = Bump((IF open.id = "-" /\ (e.dry \/ e.ret # "ok") /\ (device # <<>> \/ intended # {}) THEN {"C03"} ELSE {})
+                   \cup (IF applied /\ ReplCfg(e) # device THEN {"C01"} ELSE {}))
+     /\ intended' = o.I /\ mirror' = (IF e.envsync THEN o.d ELSE o.m) /\ device' = o.d
+     /\ open' = IF open.id = "-" THEN NextOpen(o, e.tmo < 5000) ELSE NextOpen(o, open.short)
+     /\ txn' = IF applied THEN [valid |-> TRUE, id |-> e.id, req |-> {}, snap |-> SnapOf(intended, {}), dev |-> device, I |-> intended, repl |-> TRUE, m |-> mirror]
+               ELSE txn
+     /\ ever' = ever \cup LeavesOf(o.I)
+     /\ lastSet' = NoSet /\ dry' = NoDry /\ flt' = NoFlt
+     /\ UNCHANGED dis
+
 \* ---- Confirm / Cancel / expiry --------------------------------------------------------
 Matches(e) == open.id = e.id /\ open.id # "-"
 
@@ -216,7 +256,9 @@ RollbackClauses(e, o) ==
   IF ~txn.valid THEN {<<"M", "RollbackWithoutTxn", FALSE>>} ELSE
   {<<"C05", "StoreRestored", o.I = RestoredStore(intended, txn.snap)>>,
    <<"C05", "StoreAsBefore", o.I = txn.I>>,
-   <<"C05", "DeviceRestored", \A x \in TouchedLeaves(txn.snap, txn.req) : Get(o.d, x) = Get(txn.dev, x)>>,
+   <<"C05", "DeviceRestored", IF txn.repl THEN o.d = txn.dev   \* a replace intent touched the whole configuration
+                              ELSE \A x \in TouchedLeaves(txn.snap, txn.req) : Get(o.d, x) = Get(txn.dev, x)>>,
+   <<"C05", "RunningRestoredAfterReplace", txn.repl => o.m = txn.m>>,
    <<"C06", "ClosedAfterRollback", o.open.id = "-">>}
 
 Unchanged(e, o) == NoEffect(e, o)
@@ -242,7 +284,7 @@ Cancel(e) ==
         ELSE {<<"C06", "WrongIdFails", e.ret = "error">>,
               <<"C06", "WrongIdNoEffect", Unchanged(e, o) /\ o.open = OpenProj>>}, l)
   /\ nt' = Bump((IF ~Matches(e) /\ open.id # "-" THEN {"C06"} ELSE {})
-                \cup (IF Matches(e) /\ txn.valid /\ txn.I # intended /\ txn.dev # device THEN {"C05"} ELSE {}))
+                \cup (IF Matches(e) /\ txn.valid /\ (txn.I # intended \/ txn.repl) /\ txn.dev # device THEN {"C05"} ELSE {}))
   /\ intended' = o.I /\ mirror' = (IF e.envsync THEN o.d ELSE o.m) /\ device' = o.d /\ open' = NextOpen(o, open.short)
   /\ txn' = IF o.open.id = "-" THEN NoTxn ELSE txn
   /\ ever' = ever \cup LeavesOf(o.I)
@@ -253,7 +295,7 @@ Wait(e) ==
   LET o == Obs(e) IN
   /\ bad' = bad \cup Failed(
         IF open.id = "-" THEN {<<"C06", "IdleWaitNoEffect", Unchanged(e, o) /\ o.open = OpenProj>>}
-        ELSE IF open.armed /\ open.short THEN RollbackClauses(e, o) \cup {<<"C06", "OneRollbackOnExpiry", Len(e.sets) <= 1>>}
+        ELSE IF open.armed /\ open.short THEN RollbackClauses(e, o) \cup {<<"C06", "OneRollbackOnExpiry", Len(e.sets) <= (IF txn.valid /\ txn.repl THEN 2 ELSE 1)>>}
         ELSE IF open.armed THEN {<<"C06", "LongTransactionSurvivesWait", Unchanged(e, o) /\ o.open = OpenProj>>}
         ELSE {<<"C06", "NeverWedged", o.open.id = "-">>}, l)
   /\ nt' = Bump((IF open.id # "-" /\ open.armed /\ open.short /\ txn.valid /\ txn.I # intended /\ txn.dev # device THEN {"C05"} ELSE {})
@@ -293,6 +335,7 @@ Step ==
   /\ l <= Len(Trace)
   /\ LET e == Trace[l] IN
        CASE e.ev = "init" -> Reset(e)
+         [] e.ev = "txset" /\ e.hasrepl -> TxReplace(e)
          [] e.ev = "txset" -> TxSet(e)
          [] e.ev = "confirm" -> Confirm(e)
          [] e.ev = "cancel" -> Cancel(e)
